@@ -7,6 +7,7 @@ Helper lemmas first.  Uses Proofs/C10.lean (components), Proofs/C11.lean
 import Proofs.C10
 import Proofs.C11
 import Proofs.Lemmas.Split
+import Proofs.Lemmas.PathEnc
 namespace Wpull.Url
 open Wpull
 
@@ -341,5 +342,400 @@ theorem hostpart_reparse (c c' : Cfg) (hv : V6Params c c') {arg hn : Str}
       unfold isAsciiUpper
       simp only [Bool.and_eq_false_iff, decide_eq_false_iff_not]
       rcases hch d hd with h' | h' | h' | h' <;> omega
+
+/-! ## characters of a normalised component -/
+
+/-- a character `percent_encode` + `uppercase_percent_encoding` can emit -/
+def OutChar (set : List Nat) (c : Nat) : Prop :=
+  c = 37 ∨ (48 ≤ c ∧ c ≤ 57) ∨ (65 ≤ c ∧ c ≤ 70) ∨ (0x20 ≤ c ∧ c ≤ 0x7E ∧ set.contains c = false)
+
+instance (set : List Nat) (c : Nat) : Decidable (OutChar set c) := by unfold OutChar; exact inferInstance
+
+theorem pctByte_origin {set : List Nat} {b : Nat} (hb : b < 256) :
+    ∀ c ∈ pctByte set b, OutChar set c ∧ (c = 32 → b = 32) := by
+  unfold pctByte
+  split
+  · intro c hc
+    simp only [List.mem_cons, List.not_mem_nil, or_false] at hc
+    have h1 := hexChar_range (n := b / 16) (by omega)
+    have h2 := hexChar_range (n := b % 16) (by omega)
+    have e1 : hexChar (b / 16) ≤ 57 ∨ 65 ≤ hexChar (b / 16) := by unfold hexChar; split <;> omega
+    have e2 : hexChar (b % 16) ≤ 57 ∨ 65 ≤ hexChar (b % 16) := by unfold hexChar; split <;> omega
+    rcases hc with rfl | rfl | rfl
+    · exact ⟨Or.inl rfl, by omega⟩
+    · refine ⟨?_, by omega⟩
+      rcases e1 with e | e
+      · exact Or.inr (Or.inl ⟨h1.1, e⟩)
+      · exact Or.inr (Or.inr (Or.inl ⟨e, h1.2⟩))
+    · refine ⟨?_, by omega⟩
+      rcases e2 with e | e
+      · exact Or.inr (Or.inl ⟨h2.1, e⟩)
+      · exact Or.inr (Or.inr (Or.inl ⟨e, h2.2⟩))
+  · rename_i h
+    simp only [Bool.or_eq_true, decide_eq_true_eq, not_or, Bool.not_eq_true] at h
+    intro c hc
+    simp only [List.mem_cons, List.not_mem_nil, or_false] at hc
+    subst hc
+    exact ⟨Or.inr (Or.inr (Or.inr ⟨by omega, by omega, h.2⟩)), fun e => e⟩
+
+theorem pctBytes_origin {set : List Nat} : ∀ {bs : Bytes}, (∀ b ∈ bs, b < 256) →
+    ∀ c ∈ pctBytes set bs, OutChar set c ∧ (c = 32 → 32 ∈ bs)
+  | [], _ => by intro c hc; simp [pctBytes] at hc
+  | b :: t, h => by
+    intro c hc
+    rw [pctBytes, List.mem_append] at hc
+    rcases hc with hc | hc
+    · have := pctByte_origin (set := set) (h b (by simp)) c hc
+      exact ⟨this.1, fun e => by rw [this.2 e]; simp⟩
+    · have := pctBytes_origin (set := set) (bs := t) (fun x hx => h x (by simp [hx])) c hc
+      exact ⟨this.1, fun e => List.mem_cons_of_mem _ (this.2 e)⟩
+
+theorem upperPct_mem (s : Str) : ∀ c ∈ upperPct s, c ∈ s ∨ (65 ≤ c ∧ c ≤ 70) := by
+  fun_induction upperPct s with
+  | case1 c a b t hm ih =>
+    simp only [Bool.and_eq_true] at hm
+    have up : ∀ x, isHexDigit x = true → asciiUpper x = x ∨ (65 ≤ asciiUpper x ∧ asciiUpper x ≤ 70) := by
+      intro x hx
+      unfold asciiUpper
+      split
+      · rename_i hl
+        unfold isAsciiLower at hl
+        unfold isHexDigit isAsciiDigit at hx
+        simp only [Bool.and_eq_true, decide_eq_true_eq] at hl
+        simp only [Bool.or_eq_true, Bool.and_eq_true, decide_eq_true_eq] at hx
+        right; omega
+      · left; rfl
+    intro x hx
+    simp only [List.mem_cons] at hx ⊢
+    rcases hx with rfl | rfl | rfl | hx
+    · left; left; rfl
+    · rcases up a hm.1.2 with e | e
+      · left; right; left; exact e
+      · right; exact e
+    · rcases up b hm.2 with e | e
+      · left; right; right; left; exact e
+      · right; exact e
+    · rcases ih x hx with e | e
+      · left; right; right; right; exact e
+      · right; exact e
+  | case2 c a b t hm ih =>
+    intro x hx
+    simp only [List.mem_cons] at hx
+    rcases hx with rfl | hx
+    · left; simp
+    · rcases ih x hx with e | e
+      · left; exact List.mem_cons_of_mem _ e
+      · right; exact e
+  | case3 c a => intro x hx; left; exact hx
+  | case4 c => intro x hx; left; exact hx
+  | case5 => intro x hx; left; exact hx
+
+/-- characters of `upperPct (pctBytes set bs)` -/
+theorem component_out {set : List Nat} {bs : Bytes} (hb : ∀ b ∈ bs, b < 256) :
+    ∀ c ∈ upperPct (pctBytes set bs), OutChar set c ∧ (c = 32 → 32 ∈ bs) := by
+  intro c hc
+  rcases upperPct_mem _ c hc with h | h
+  · exact pctBytes_origin hb c h
+  · exact ⟨Or.inr (Or.inr (Or.inl h)), by omega⟩
+
+theorem outChar_range {set : List Nat} {c : Nat} (h : OutChar set c) : 0x20 ≤ c ∧ c ≤ 0x7E := by
+  unfold OutChar at h; omega
+
+theorem outChar_stable {set : List Nat} (hs : SetClosed set) {c : Nat} (h : OutChar set c) : Stable set c := by
+  rcases h with h | h | h | h
+  · subst h; exact stable_pct hs
+  · have : c = hexChar (c - 48) := by unfold hexChar; split <;> omega
+    rw [this]; exact stable_hexChar hs (by omega)
+  · have : c = hexChar (c - 55) := by unfold hexChar; split <;> omega
+    rw [this]; exact stable_hexChar hs (by omega)
+  · exact h
+
+/-- a normalised component is returned unchanged by `percent_encode` with an ASCII-transparent codec -/
+theorem percentEncode_fixed' {enc : Str → Except PyExc Bytes} (henc : SegSafe enc) {set : List Nat}
+    (hs : SetClosed set) {s : Str} (h : ∀ c ∈ s, OutChar set c) : percentEncode enc set s = .ok s := by
+  unfold percentEncode
+  rw [segSafe_ascii henc (fun c hc => by have := outChar_range (h c hc); omega)]
+  simp only
+  rw [pctBytes_stable (fun c hc => outChar_stable hs (h c hc))]
+
+theorem utf8_bytes {s : Str} {bs : Bytes} (h : utf8Enc s = .ok bs) : ∀ b ∈ bs, b < 256 :=
+  segSafe_bytes utf8Enc_segSafe h
+
+/-! ## user info -/
+
+/-- characters and delimiters of a normalised user name -/
+theorem username_out {un a : Str} (h : normalizeUsername un = .ok a) :
+    (∀ c ∈ a, 0x21 ≤ c ∧ c ≤ 0x7E) ∧ 47 ∉ a ∧ 63 ∉ a ∧ 35 ∉ a ∧ 64 ∉ a ∧ 58 ∉ a := by
+  unfold normalizeUsername percentEncode at h
+  split at h
+  · cases h
+  · rename_i r hr
+    split at hr
+    · cases hr
+    · rename_i bs hbs
+      cases hr; cases h
+      have hout := component_out (set := usernameSet) (utf8_bytes hbs)
+      have no : ∀ d, ¬ OutChar usernameSet d → d ∉ upperPct (pctBytes usernameSet bs) :=
+        fun d hd hm => hd (hout d hm).1
+      refine ⟨fun c hc => ?_, no 47 (by decide), no 63 (by decide), no 35 (by decide), no 64 (by decide), no 58 (by decide)⟩
+      have h1 := (hout c hc).1
+      have h2 := outChar_range h1
+      refine ⟨?_, h2.2⟩
+      by_cases e : c = 32
+      · subst e; exact absurd h1 (by decide)
+      · omega
+
+theorem password_out {pw b : Str} (h : normalizePassword pw = .ok b) :
+    (∀ c ∈ b, 0x21 ≤ c ∧ c ≤ 0x7E) ∧ 47 ∉ b ∧ 63 ∉ b ∧ 35 ∉ b ∧ 64 ∉ b := by
+  unfold normalizePassword percentEncode at h
+  split at h
+  · cases h
+  · rename_i r hr
+    split at hr
+    · cases hr
+    · rename_i bs hbs
+      cases hr; cases h
+      have hout := component_out (set := passwordSet) (utf8_bytes hbs)
+      have no : ∀ d, ¬ OutChar passwordSet d → d ∉ upperPct (pctBytes passwordSet bs) :=
+        fun d hd hm => hd (hout d hm).1
+      refine ⟨fun c hc => ?_, no 47 (by decide), no 63 (by decide), no 35 (by decide), no 64 (by decide)⟩
+      have h1 := (hout c hc).1
+      have h2 := outChar_range h1
+      refine ⟨?_, h2.2⟩
+      by_cases e : c = 32
+      · subst e; exact absurd h1 (by decide)
+      · omega
+
+theorem normalizeUsername_nil : normalizeUsername [] = .ok [] := by decide
+theorem normalizePassword_nil : normalizePassword [] = .ok [] := by decide
+
+/-- the user-info part `a[:b]@` in front of `R` is split off and decoded back to (un, pw) -/
+theorem userinfo_reparse (c' : Cfg) {un pw a b : Str}
+    (ha : normalizeUsername un = .ok a) (hb : normalizePassword pw = .ok b)
+    (hqu : percentDecode c' a = un) (hqp : percentDecode c' b = pw) (R : Str) (hR : 64 ∉ R) :
+    let auth := a ++ (if pw.isEmpty then [] else 58 :: b) ++ (if un.isEmpty && pw.isEmpty then [] else [64]) ++ R
+    (parseAuthority auth).2 = R ∧
+    percentDecode c' (parseUserinfo (parseAuthority auth).1).1 = un ∧
+    percentDecode c' (parseUserinfo (parseAuthority auth).1).2 = pw := by
+  intro auth
+  have hao := username_out ha
+  have hbo := password_out hb
+  have hd0 : percentDecode c' [] = [] := by simp [percentDecode]
+  by_cases hu : un.isEmpty = true
+  · have hun : un = [] := by simpa using hu
+    subst hun
+    rw [normalizeUsername_nil] at ha; cases ha
+    by_cases hp : pw.isEmpty = true
+    · have hpw : pw = [] := by simpa using hp
+      subst hpw
+      have hauth : auth = R := by simp [auth]
+      rw [hauth]
+      unfold parseAuthority parseUserinfo
+      simp only [partition1_none hR, Bool.false_eq_true, if_false, partition1, hd0, and_self]
+    · have hauth : auth = (58 :: b) ++ 64 :: R := by simp [auth, hp]
+      rw [hauth]
+      have h64 : 64 ∉ 58 :: b := by
+        intro hm; simp only [List.mem_cons] at hm
+        rcases hm with h | h
+        · omega
+        · exact hbo.2.2.2.2 h
+      unfold parseAuthority
+      simp only [port_partition1_append 64 _ _ h64, if_true]
+      unfold parseUserinfo
+      have : partition1 58 (58 :: b) = ([], true, b) := by simp [partition1]
+      simp only [this, hd0, hqp, and_self]
+  · have hauth : auth = (a ++ (if pw.isEmpty then [] else 58 :: b)) ++ 64 :: R := by
+      simp [auth, hu]
+    rw [hauth]
+    have h64 : 64 ∉ a ++ (if pw.isEmpty then [] else 58 :: b) := by
+      intro hm
+      rw [List.mem_append] at hm
+      rcases hm with h | h
+      · exact hao.2.2.2.2.1 h
+      · split at h
+        · cases h
+        · simp only [List.mem_cons] at h
+          rcases h with h | h
+          · omega
+          · exact hbo.2.2.2.2 h
+    unfold parseAuthority
+    simp only [port_partition1_append 64 _ _ h64, if_true]
+    unfold parseUserinfo
+    by_cases hp : pw.isEmpty = true
+    · have hpw : pw = [] := by simpa using hp
+      subst hpw
+      simp only [List.isEmpty_nil, if_true, List.append_nil, partition1_none hao.2.2.2.2.2, hqu, hd0, and_self]
+    · simp only [hp, Bool.false_eq_true, if_false, port_partition1_append 58 _ _ hao.2.2.2.2.2, hqu, hqp, and_self]
+
+/-! ## path -/
+
+theorem clean_head {segs : List Str} (hc : CleanSegs segs) (hne : joinWith [47] segs ≠ []) :
+    startsWith (joinWith [47] segs) [47] = false := by
+  obtain ⟨hnn, hall, hinit⟩ := hc
+  have key : ∀ (s : Str) (rest : Str), 47 ∉ s → s ≠ [] → startsWith (s ++ rest) [47] = false := by
+    intro s rest h47 hs
+    cases s with
+    | nil => exact absurd rfl hs
+    | cons x t =>
+      have : x ≠ 47 := fun e => h47 (e ▸ List.mem_cons_self)
+      simp [startsWith, this]
+  match segs, hnn, hall, hinit, hne with
+  | [s], _, hall, _, hne =>
+    have hs : s ≠ [] := by simpa [joinWith] using hne
+    have := key s [] (hall s (by simp)).1 hs
+    simpa [joinWith] using this
+  | s :: s2 :: r, _, hall, hinit, _ =>
+    have hs : s ≠ [] := hinit s (by simp [List.dropLast])
+    have := key s ([47] ++ joinWith [47] (s2 :: r)) (hall s (by simp)).1 hs
+    simpa [joinWith] using this
+
+/-- the normalised path: shape, delimiters, characters, and what normalising it again gives -/
+theorem path_reparse (c c' : Cfg) (hs : SegSafe c.encode) (hs' : SegSafe c'.encode) {p1 path : Str}
+    (h : normalizePath c p1 = .ok path) :
+    ∃ T, path = 47 :: T ∧ 63 ∉ path ∧ 35 ∉ path ∧ (∀ x ∈ path, 0x21 ≤ x ∧ x ≤ 0x7E) ∧
+      normalizePath c' (if T.isEmpty then [47] else T) = .ok path := by
+  unfold normalizePath percentEncode at h
+  simp only at h
+  split at h
+  · cases h
+  · rename_i r hr
+    split at hr
+    · cases hr
+    · rename_i bs hbs
+      cases hr; cases h
+      have hbytes := segSafe_bytes hs hbs
+      obtain ⟨segs, hclean, hshape⟩ := path_normal_clean hs _ bs hbs
+      have hflat := path_normal_flat hs _ bs hbs
+      have hout := component_out (set := defaultSet) hbytes
+      have no : ∀ d, ¬ OutChar defaultSet d → d ∉ upperPct (pctBytes defaultSet bs) :=
+        fun d hd hm => hd (hout d hm).1
+      refine ⟨joinWith [47] segs, hshape, no 63 (by decide), no 35 (by decide), ?_, ?_⟩
+      · intro x hx
+        have h1 := (hout x hx).1
+        have h2 := outChar_range h1
+        refine ⟨?_, h2.2⟩
+        by_cases e : x = 32
+        · subst e; exact absurd h1 (by decide)
+        · omega
+      · -- the argument `parse` hands to normalize_path leads back to the same text
+        have harg : (if startsWith (if (joinWith [47] segs).isEmpty then [47] else joinWith [47] segs) [47]
+              then (if (joinWith [47] segs).isEmpty then [47] else joinWith [47] segs)
+              else 47 :: (if (joinWith [47] segs).isEmpty then [47] else joinWith [47] segs))
+            = upperPct (pctBytes defaultSet bs) := by
+          rw [hshape]
+          by_cases he : (joinWith [47] segs).isEmpty = true
+          · have : joinWith [47] segs = [] := by simpa using he
+            simp [this, startsWith]
+          · have hne : joinWith [47] segs ≠ [] := by simpa using he
+            simp only [he, Bool.false_eq_true, if_false, clean_head hclean hne]
+        unfold normalizePath
+        simp only
+        rw [harg, hflat]
+        rw [percentEncode_fixed' hs' defaultSet_closed (fun x hx => (hout x hx).1)]
+        simp only
+        rw [upperPct_idem]
+
+/-! ## query -/
+
+/-- the codec produces the byte 0x20 only for the space character -/
+def SpaceSafe (enc : Str → Except PyExc Bytes) : Prop :=
+  ∀ t bs, enc t = .ok bs → 32 ∈ bs → 32 ∈ t
+
+theorem utf8Enc_spaceSafe : SpaceSafe utf8Enc := by
+  intro t
+  induction t with
+  | nil => intro bs h hm; simp [utf8Enc, encodeBy] at h; subst h; simp at hm
+  | cons c t ih =>
+    intro bs h hm
+    unfold utf8Enc encodeBy at h
+    split at h
+    · cases h
+    · rename_i a ha
+      split at h
+      · cases h
+      · rename_i b hb
+        cases h
+        rw [List.mem_append] at hm
+        rcases hm with hm | hm
+        · have : c = 32 := by
+            unfold utf8Enc1 at ha
+            repeat' split at ha
+            all_goals first
+              | (cases ha; simp only [List.mem_cons, List.not_mem_nil, or_false] at hm; omega)
+              | cases ha
+          subst this; simp
+        · exact List.mem_cons_of_mem _ (ih b hb hm)
+
+theorem replace1_mem (a b : Nat) (s : List Nat) : ∀ x ∈ replace1 a b s, (x = b ∨ x ∈ s) ∧ (a ≠ b → x ≠ a) := by
+  intro x hx
+  unfold replace1 at hx
+  obtain ⟨y, hy, rfl⟩ := List.mem_map.mp hx
+  by_cases e : (y == a) = true
+  · rw [if_pos e]
+    exact ⟨Or.inl rfl, fun h h' => h h'.symm⟩
+  · rw [if_neg e]
+    refine ⟨Or.inr hy, fun _ h' => ?_⟩
+    subst h'; simp at e
+
+/-- the normalised query: delimiter, characters, and what normalising it again gives -/
+theorem query_reparse (c c' : Cfg) (hs : SegSafe c.encode) (hsp : SpaceSafe c.encode)
+    (hs' : SegSafe c'.encode) {q1 query : Str} (h : normalizeQuery c q1 = .ok query) :
+    35 ∉ query ∧ (∀ x ∈ query, 0x21 ≤ x ∧ x ≤ 0x7E) ∧ normalizeQuery c' query = .ok query := by
+  unfold normalizeQuery percentEncodePlus percentEncode at h
+  split at h
+  · cases h
+  · rename_i r hr
+    split at hr
+    · cases hr
+    · rename_i r0 hr0
+      split at hr0
+      · cases hr0
+      · rename_i bs hbs
+        cases hr0; cases hr; cases h
+        have hbytes := segSafe_bytes hs hbs
+        have horig := pctBytes_origin (set := querySet) hbytes
+        -- characters of the text before upper-casing
+        have hmid : ∀ x ∈ (if q1.contains 32 then replace1 32 43 (pctBytes querySet bs) else pctBytes querySet bs),
+            OutChar querySet x ∧ x ≠ 32 := by
+          intro x hx
+          split at hx
+          · have := replace1_mem 32 43 _ x hx
+            rcases this.1 with e | e
+            · subst e; exact ⟨by decide, by omega⟩
+            · exact ⟨(horig x e).1, this.2 (by omega)⟩
+          · rename_i hno
+            refine ⟨(horig x hx).1, fun e => ?_⟩
+            have h32 := hsp _ _ hbs ((horig x hx).2 e)
+            apply hno
+            simpa using h32
+        have hfin : ∀ x ∈ upperPct (if q1.contains 32 then replace1 32 43 (pctBytes querySet bs) else pctBytes querySet bs),
+            OutChar querySet x ∧ x ≠ 32 := by
+          intro x hx
+          rcases upperPct_mem _ x hx with e | e
+          · exact hmid x e
+          · exact ⟨Or.inr (Or.inr (Or.inl e)), by omega⟩
+        refine ⟨fun hm => absurd (hfin 35 hm).1 (by decide), fun x hx => ?_, ?_⟩
+        · have := outChar_range (hfin x hx).1
+          have := (hfin x hx).2
+          omega
+        · unfold normalizeQuery percentEncodePlus
+          rw [percentEncode_fixed' hs' querySet_closed (fun x hx => (hfin x hx).1)]
+          simp only
+          have hno : (upperPct (if q1.contains 32 then replace1 32 43 (pctBytes querySet bs) else pctBytes querySet bs)).contains 32 = false := by
+            cases hc : (upperPct (if q1.contains 32 then replace1 32 43 (pctBytes querySet bs) else pctBytes querySet bs)).contains 32 with
+            | false => rfl
+            | true => exact absurd rfl (hfin 32 (by simpa using hc)).2
+          rw [hno]
+          simp only [Bool.false_eq_true, if_false]
+          rw [upperPct_idem]
+
+/-! ## scheme -/
+
+theorem scheme_facts {sch : Str} {dp : Nat} (h : defaultPort? sch = some dp) :
+    sch ≠ [] ∧ 58 ∉ sch ∧ sch.contains 46 = false ∧ (some sch == some sLocalhost) = false ∧
+    isAscii sch = true ∧ sch.map asciiLower = sch ∧ (∀ x ∈ sch, 0x21 ≤ x ∧ x ≤ 0x7E) ∧ 0 < dp ∧ dp < 65536 := by
+  have hm := lookup_mem (l := schemePorts) h
+  simp only [schemePorts, List.mem_cons, Prod.mk.injEq, List.not_mem_nil, or_false] at hm
+  rcases hm with ⟨rfl, rfl⟩ | ⟨rfl, rfl⟩ | ⟨rfl, rfl⟩ | ⟨rfl, rfl⟩ | ⟨rfl, rfl⟩ | ⟨rfl, rfl⟩ <;> decide
 
 end Wpull.Url
